@@ -676,7 +676,6 @@ package edwards25519
 //@   assigns *out1
 //@   ensures [value] ev4(out1) == le(arg1, 32)
 
-
 // ---------------------------------------------------------------- Scalar (property C07, C08)
 // A Scalar s holds ev4(s.s) = n*R mod L for the integer n in [0,L) it stands for (Montgomery form, R = 2^256,
 // R*RINV = 1 mod L is a ground fact).  All statements below are congruences mod L with the R factors explicit:
@@ -1009,7 +1008,6 @@ package edwards25519
 //@   ensures [valid] gvalid(v)
 //@   ensures [value] pt(v) == gadd(smul(nval(a), pt(A)), smul(nval(b), gbase()))
 
-
 //@ func (*Point).MultByCofactor(v, p) as group
 //@   mode group
 //@   requires [wf] wf(p)
@@ -1250,7 +1248,6 @@ package edwards25519
 //@   requires [consts] cong(lv(z0), 0, P) && cong(lv(o1), 1, P)
 //@   assigns *v
 //@   ensures [id] repA(v, z0, o1)
-
 
 // ---------------------------------------------------------------- Scalar.Invert (property C07): arithmetic in Z/l
 // Tier "Z/l" (ring mode with the prime l): a Scalar is an opaque value sval(s) = ev4(s.s)*RINV mod l.  The `sensures`
